@@ -158,7 +158,23 @@ type emitted struct {
 	cpCode    byte   // first byte of the PPP payload (LCP/PAP/CHAP/IPCP code)
 	cpID      byte
 	cpData    []byte
+	tags      []byte // discovery frames: the tag area
 	ok        bool
+}
+
+// findTag returns the value of the first tag of type t in a PPPoE tag area.
+func findTag(b []byte, t uint16) []byte {
+	for len(b) >= 4 {
+		typ, l := binary.BigEndian.Uint16(b[0:2]), int(binary.BigEndian.Uint16(b[2:4]))
+		if 4+l > len(b) {
+			return nil
+		}
+		if typ == t {
+			return append([]byte(nil), b[4:4+l]...)
+		}
+		b = b[4+l:]
+	}
+	return nil
 }
 
 func parseEmitted(f pppoe.VerifFrame) emitted {
@@ -177,6 +193,9 @@ func parseEmitted(f pppoe.VerifFrame) emitted {
 		p = p[:l]
 	}
 	e.ok = true
+	if e.etherType == etDiscovery {
+		e.tags = p
+	}
 	if e.etherType == etSession && len(p) >= 2 {
 		e.proto = binary.BigEndian.Uint16(p[0:2])
 		if len(p) >= 6 {
